@@ -29,7 +29,19 @@ def run(chk, replay=None):
         worlds.append((hs, srv, payloads, window, cfg, rng.choice(['digest', 'digest', 'none'])))
     for hs, srv, payloads, window, cfg, challenge in worlds:
         stripped = [h.split(':')[0] for h in hs] if not srv else hs
-        world = {'challenge': challenge, 'cluster_st': 200, 'cluster_body': json.dumps({'connectionStrings': {'standard': atlaslib.conn_string(hs, srv), 'standardSrv': 'mongodb+srv://x'}}),
+        # cluster descriptions of realistic and of large size (multi-region replicationSpecs, tags, labels), the connection strings before or after the bulk
+        wi = len(chk.__dict__.setdefault('_c16_sizes', []))
+        target = [0, 1500, 4000, 4200, 9000, 70000, 300][wi % 7]
+        spec = {'id': '5f1a2b3c4d5e6f7a8b9c0d1e', 'numShards': 1, 'regionConfigs': [{'providerName': 'AWS', 'regionName': 'US_EAST_1', 'priority': 7, 'electableSpecs': {'instanceSize': 'M30', 'nodeCount': 3, 'diskIOPS': 3000, 'ebsVolumeType': 'STANDARD'},
+                'autoScaling': {'compute': {'enabled': True, 'scaleDownEnabled': True, 'minInstanceSize': 'M30', 'maxInstanceSize': 'M60'}, 'diskGB': {'enabled': True}}}]}
+        bulk = {'replicationSpecs': [], 'tags': []}
+        while target and len(json.dumps(bulk)) < target:
+            bulk['replicationSpecs'].append(spec); bulk['tags'].append({'key': 'team-%d' % len(bulk['tags']), 'value': 'value with \\ " and unicode \u00e9 ' * 3})
+        cs = {'connectionStrings': {'standard': atlaslib.conn_string(hs, srv), 'standardSrv': 'mongodb+srv://x'}}
+        desc = dict(list({'name': 'C1x', 'clusterType': 'REPLICASET'}.items()) + (list(bulk.items()) + list(cs.items()) if wi % 2 == 0 else list(cs.items()) + list(bulk.items())) + [('stateName', 'IDLE')])
+        chk._c16_sizes.append(len(json.dumps(desc)))
+        chk.dist('cluster_description_over_4096_bytes', 1 if len(json.dumps(desc)) > 4096 else 0)
+        world = {'challenge': challenge, 'cluster_st': 200, 'cluster_body': json.dumps(desc),
                  'hosts': [{'status': 200, 'body': base64.b64encode(gzb).decode(), 'cut': -1} for _, gzb in payloads]}
         # every other world is a SECOND run into the same --outputFile: longer outputs of an earlier run are already there
         pre = {('out.log.%d' % i): (b'{"stale":"line from an earlier, longer run"}\n' * 400) for i in range(len(hs))} if len(worlds) > 1 and worlds.index((hs, srv, payloads, window, cfg, challenge)) % 2 == 1 else None
